@@ -69,13 +69,14 @@ pub fn named_lookup(m: &Model, ctx: &mut Ctx, rule: &str) {
         ctx.fail_closed(rule, "link_enum_or_distinguished: expected (tlds, governing reference, identifier, supertypes)");
         return;
     }
-    for (gov, id, want) in [("SpeedValue", "unavailable", Some("127")), ("Speed", "unavailable", Some("127")), ("Colour", "green", Some("Colour::green")), ("Shade", "green", Some("Colour::green")), ("Colour", "unavailable", None), ("SpeedValue", "green", None)] {
+    for (gov, id, want) in [("SpeedValue", "unavailable", Some("SpeedValue(127)")), ("Speed", "unavailable", Some("Speed(SpeedValue(127))")), ("Colour", "green", Some("Colour::green")), ("Shade", "green", Some("Shade(Colour::green)")), ("Colour", "unavailable", None), ("SpeedValue", "green", None)] {
         ctx.oblige(rule, &format!("lookup:{}:{}", gov, id), true);
         let mut env = Env::new();
         env.insert(params[0].clone(), Val::Opaque("tlds".into()));
         env.insert(params[1].clone(), named("DeclarationElsewhere", vec![("identifier", Val::Str(gov.into()))]));
         env.insert(params[2].clone(), Val::Str(id.into()));
-        env.insert(params[3].clone(), Val::List(vec![]));
+        // as the caller in link_with_type does: the list of supertypes starts with the governing reference
+        env.insert(params[3].clone(), Val::List(vec![Val::Str(gov.into())]));
         let got = match ev.eval_fn_body(&f.block, &mut env) {
             Ok(Val::Ctor(ok, p, _)) if ok == "Ok" => match p.first() {
                 Some(Val::Ctor(s, q, _)) if s == "Some" => {
@@ -83,7 +84,14 @@ pub fn named_lookup(m: &Model, ctx: &mut Ctx, rule: &str) {
                     fn render(v: &Val) -> String {
                         match v {
                             Val::Ctor(n, _, f) if n == "EnumeratedValue" => format!("{}::{}", f.get("enumerated").map(|x| x.show()).unwrap_or_default().trim_matches('"'), f.get("enumerable").map(|x| x.show()).unwrap_or_default().trim_matches('"')),
-                            Val::Ctor(n, _, f) if n == "LinkedNestedValue" => f.get("value").map(render).unwrap_or_default(),
+                            // the references that lead to the defining type are delegates around the value
+                            Val::Ctor(n, _, f) if n == "LinkedNestedValue" => {
+                                let inner = f.get("value").map(render).unwrap_or_default();
+                                match f.get("supertypes") {
+                                    Some(Val::List(l)) => l.iter().rev().fold(inner, |acc, t| format!("{}({})", t.show().trim_matches('"'), acc)),
+                                    _ => inner,
+                                }
+                            }
                             Val::Ctor(n, _, f) if n == "LinkedIntValue" => match f.get("value") { Some(Val::Int { v, .. }) => v.to_string(), o => format!("{:?}", o.map(|x| x.show())) },
                             o => o.show(),
                         }
@@ -98,7 +106,7 @@ pub fn named_lookup(m: &Model, ctx: &mut Ctx, rule: &str) {
         };
         if got.as_deref() != want {
             ctx.violate(rule, &format!("governing-type-name:{}", if want.is_some() { "not-found" } else { "found-elsewhere" }), &f.file, f.line,
-                &format!("`{}` as a value of type {} (value assignments `unavailable` and `green` also exist) resolves to {:?}; by X.680 19.10 / 20.8 it is {:?}: the named number / enumeral of the governing type, wherever else the name is used", id, gov, got, want));
+                &format!("`{}` as a value of type {} (value assignments `unavailable` and `green` also exist; Speed ::= SpeedValue, Shade ::= Colour) resolves to {:?}; by X.680 19.10 / 20.8 it is {:?}: the named number / enumeral of the governing type, wherever else the name is used, wrapped in the type references that lead to the defining type (each is a delegate struct in the bindings)", id, gov, got, want));
         }
     }
 }
@@ -476,6 +484,57 @@ pub fn single_element_list(m: &Model, ctx: &mut Ctx, rule: &str) {
 /// C07.nest: "through chains of type references". A value whose governing type is reached through references T1 -> T2 -> T3 is
 /// linked as LinkedNestedValue { supertypes: [T1, T2, T3], value }: each reference is a delegate struct, so the literal is
 /// T1(T2(T3(value))) — outermost first — and the innermost name is what types the literal itself. Both renderers are evaluated.
+/// C07.list (nested): `{ x 9 }` is lexically an OBJECT IDENTIFIER value; under a SEQUENCE / SET (OF) governor it is the value
+/// `{ x 9 }` of that type, and link_with_type reinterprets it. Where the governing type is reached through a type reference
+/// (`d Inner DEFAULT { x 9 }`, an element of `SEQUENCE OF Inner`, a CHOICE alternative of type Inner) the value arrives wrapped
+/// in LinkedNestedValue: the arm chosen for (constructed type, wrapped OID-like value) must hand the inner value to the same
+/// reinterpretation — otherwise it stays an OBJECT IDENTIFIER and is emitted as `Oid::new(&[&***X, &[9u32]].concat())`.
+pub fn nested_struct_like(m: &Model, ctx: &mut Ctx, rule: &str) {
+    use std::collections::BTreeMap as Map;
+    let Some(f) = m.fns.iter().find(|f| f.name == "link_with_type" && f.self_ty.as_deref() == Some("ASN1Value")) else {
+        ctx.fail_closed(rule, "anchor not found: ASN1Value::link_with_type");
+        return;
+    };
+    let Some(mt) = model::matches_in(&f.block).into_iter().max_by_key(|mt| mt.arms.len()) else { return };
+    let consts = const_resolver(m);
+    let named = |n: &str, fields: Vec<(&str, Val)>| Val::Ctor(n.to_string(), vec![], fields.into_iter().map(|(k, v)| (k.to_string(), v)).collect::<Map<_, _>>());
+    let arc = |name: Option<&str>, number: Option<i128>| named("ObjectIdentifierArc", vec![("name", name.map(|n| Val::some(Val::Str(n.into()))).unwrap_or(Val::none())), ("number", number.map(|n| Val::some(Val::int(n))).unwrap_or(Val::none()))]);
+    let oid = Val::Ctor("ObjectIdentifier".into(), vec![Val::Ctor("ObjectIdentifierValue".into(), vec![Val::List(vec![arc(Some("x"), None), arc(None, Some(9))])], Map::new())], Map::new());
+    for kind in ["Sequence", "Set", "SequenceOf", "SetOf"] {
+        let key = format!("nested-oid-like-value:{}", kind);
+        ctx.oblige(rule, &key, true);
+        let relinked: std::cell::RefCell<Option<(String, String)>> = std::cell::RefCell::new(None);
+        let hook = |_: &Evaluator, name: &str, a: &[Val]| -> Option<Result<Val, String>> {
+            match name {
+                ".link_with_type" => {
+                    *relinked.borrow_mut() = Some((a.first().map(|v| v.show()).unwrap_or_default(), a.get(2).map(|v| v.show()).unwrap_or_default()));
+                    Some(Ok(Val::Ctor("Ok".into(), vec![Val::Unit], Map::new())))
+                }
+                _ => None,
+            }
+        };
+        let ev = Evaluator { consts: &consts, call_hook: &hook, inline: None };
+        let ty = Val::Ctor(kind.into(), vec![Val::Opaque("payload".into())], Map::new());
+        let value = named("LinkedNestedValue", vec![("supertypes", Val::List(vec![Val::Str("Inner".into())])), ("value", oid.clone())]);
+        let mut env = Env::new();
+        env.insert("self".into(), value.clone());
+        env.insert("tlds".into(), Val::Opaque("tlds".into()));
+        env.insert("ty".into(), ty.clone());
+        env.insert("type_name".into(), Val::none());
+        let r = ev.select_arm(&mt, &Val::Tuple(vec![ty.clone(), value]), &env).and_then(|(i, mut e2)| {
+            ev.eval(&mt.arms[i].body, &mut e2)?;
+            Ok(crate::rules::util::span_line(&mt.arms[i]))
+        });
+        let got: Option<(String, String)> = relinked.borrow().clone();
+        match (r, got) {
+            (Ok(_), Some((what, with))) if what.starts_with("ObjectIdentifier(") && with.starts_with(kind) => {}
+            (Ok(line), other) => ctx.violate(rule, "nested-oid-like-value", &f.file, line,
+                &format!("`d Inner DEFAULT {{ x 9 }}` with Inner ::= {}: the value arrives as LinkedNestedValue {{ [Inner], OBJECT IDENTIFIER-like {{ x 9 }} }} and the arm chosen for it {} — it stays an OBJECT IDENTIFIER value and is emitted as `Oid::new(..)`", kind.to_uppercase(), match other { None => "does not reinterpret the inner value".to_string(), Some((w, t)) => format!("links `{}` with `{}`", w.chars().take(40).collect::<String>(), t.chars().take(30).collect::<String>()) })),
+            (Err(e), _) => ctx.fail_closed(rule, &format!("[{}]: {}", key, e)),
+        }
+    }
+}
+
 pub fn nesting(m: &Model, ctx: &mut Ctx, rule: &str) {
     use std::collections::BTreeMap as Map;
     let consts = const_resolver(m);
@@ -508,6 +567,43 @@ pub fn nesting(m: &Model, ctx: &mut Ctx, rule: &str) {
                 }
                 Ok(o) => ctx.fail_closed(rule, &format!("[wrapping order]: {}", o.show())),
                 Err(e) => ctx.fail_closed(rule, &format!("[wrapping order]: {}", e)),
+            }
+            // a SEQUENCE / SET value: the last reference names the struct itself, which is built with its `new` and not
+            // wrapped; the references that lead to it are delegates around it
+            let hook2 = |_: &Evaluator, name: &str, a: &[Val]| -> Option<Result<Val, String>> {
+                match name {
+                    ".to_rust_title_case" => match a.get(1) { Some(Val::Str(n)) => Some(Ok(Val::Sym(n.clone()))), _ => None },
+                    ".value_to_tokens" => {
+                        let ty = match a.get(2) { Some(Val::Ctor(s, p, _)) if s == "Some" => p.first().map(|v| v.show()).unwrap_or_default(), _ => "<no type name>".to_string() };
+                        Some(Ok(Val::Ctor("Ok".into(), vec![Val::Sym(format!("{}::new(FIELDS)", ty))], Map::new())))
+                    }
+                    ".clone" | ".as_ref" if a.len() == 1 => Some(Ok(a[0].clone())),
+                    _ => None,
+                }
+            };
+            let ev2 = Evaluator { consts: &consts, call_hook: &hook2, inline: None };
+            for (chain, outer_name, want) in [(vec!["Alias", "Inner"], "Alias", "Alias(Inner::new(FIELDS))"), (vec!["Inner"], "Inner", "Inner::new(FIELDS)")] {
+                let key = format!("struct-value:{}", chain.join("->"));
+                ctx.oblige(rule, &key, true);
+                let v = named("LinkedNestedValue", vec![("supertypes", Val::List(chain.iter().map(|c| Val::Str(c.to_string())).collect())), ("value", Val::Ctor("LinkedStructLikeValue".into(), vec![Val::List(vec![])], Map::new()))]);
+                let mut env = Env::new();
+                env.insert("self".into(), Val::ctor("Rasn"));
+                env.insert("type_name".into(), Val::some(Val::Sym(outer_name.into())));
+                let r = ev2.select_arm(&mt, &v, &env).and_then(|(i, mut e2)| ev2.eval(&mt.arms[i].body, &mut e2)).map(|v| match v {
+                    // an arm that leaves the function early
+                    Val::Ctor(n, mut p, _) if n == "$return" => p.pop().unwrap_or(Val::Unit),
+                    o => o,
+                });
+                match r {
+                    Ok(Val::Ctor(ok, p, _)) if ok == "Ok" => {
+                        let t = p.first().map(|v| v.show().replace(' ', "")).unwrap_or_default();
+                        if t != want {
+                            ctx.violate(rule, "struct-value-wrapped-in-itself", &f.file, crate::rules::util::span_line(&mt), &format!("a SEQUENCE value reached through the references {} (the last one is the SEQUENCE type itself) is rendered `{}`, expected `{}`: a struct is built by its `new`, only the references that lead to it are delegates — `b Inner DEFAULT {{ x 1 }}` is emitted as `Inner(Inner::new(..))`, which is not Rust that type-checks", chain.join(" -> "), t, want));
+                        }
+                    }
+                    Ok(o) => ctx.fail_closed(rule, &format!("[{}]: {}", key, o.show())),
+                    Err(e) => ctx.fail_closed(rule, &format!("[{}]: {}", key, e)),
+                }
             }
         }
     } else {
@@ -854,6 +950,7 @@ Not applicable (run-time values): resolution of references, nested CHOICE/SEQUEN
     cstring_end(m, ctx, "C07.cstring");
     single_element_list(m, ctx, "C07.list");
     nesting(m, ctx, "C07.nest");
+    nested_struct_like(m, ctx, "C07.list");
     oid(m, ctx, &ev);
     strings(m, ctx, &ev);
 }
